@@ -536,9 +536,59 @@ static void do_U(char *line)
 }
 #endif
 
+/* S <lo> <hi> <step> <add> : eav_setup for every rfc value lo+add, lo+step+add, ... <= hi+add.  Prints {"n":calls,"ok":[values accepted],
+ * "rej":[[ret,errcode,message,count,first value] per distinct triple]} */
+static void do_S_range(long long lo, long long hi, long long step, long long add)
+{
+    struct { int sr, ec; char msg[96]; long long cnt, first; } tr[16];
+    int ntr = 0, i, firstok = 1;
+    long long v, n = 0;
+    eav_t *e = fresh_eav(0xA5);
+    printf("{\"ok\":[");
+    for (v = lo; v <= hi; v += step) {
+        int sr;
+        const char *msg;
+        n++;
+        eav_init(e);
+        e->rfc = (EAV_RFC)(int)(v + add);
+        g_stage = "eav_setup";
+        sr = eav_setup(e);
+        if (sr == 0) {
+            printf("%s%lld", firstok ? "" : ",", v + add);
+            firstok = 0;
+        } else {
+            g_stage = "eav_errstr";
+            msg = eav_errstr(e);
+            if (!msg) msg = "(null)";
+            for (i = 0; i < ntr; i++)
+                if (tr[i].sr == sr && tr[i].ec == e->errcode && !strncmp(tr[i].msg, msg, sizeof tr[i].msg - 1)) break;
+            if (i == ntr && ntr < 16) {
+                tr[ntr].sr = sr; tr[ntr].ec = e->errcode; tr[ntr].cnt = 0; tr[ntr].first = v + add;
+                strncpy(tr[ntr].msg, msg, sizeof tr[ntr].msg - 1); tr[ntr].msg[sizeof tr[ntr].msg - 1] = 0;
+                ntr++;
+            }
+            if (i < 16) tr[i].cnt++;
+        }
+        g_stage = "eav_free";
+        eav_free(e);
+    }
+    printf("],\"n\":%lld,\"rej\":[", n);
+    for (i = 0; i < ntr; i++) {
+        printf("%s[%d,%d,", i ? "," : "", tr[i].sr, tr[i].ec);
+        put_jstr(stdout, tr[i].msg);
+        printf(",%lld,%lld]", tr[i].cnt, tr[i].first);
+    }
+    printf("]}\n");
+    free(e);
+}
+
 static void do_S(char *line)
 {
     long v = strtol(line + 2, NULL, 0);
+    {
+        long long lo, hi, step, add;
+        if (sscanf(line + 2, "%lld %lld %lld %lld", &lo, &hi, &step, &add) == 4 && step > 0) { do_S_range(lo, hi, step, add); return; }
+    }
     eav_t *e = fresh_eav(0xA5);
     int sr;
     const char *msg;
